@@ -67,7 +67,7 @@ def main(argv):
     if want_reverts:
         kf = json.load(open(os.path.join(HERE, "known_findings.json")))
         for f in kf["findings"]:
-            if f.get("status") == "fixed" and f.get("commit"):
+            if f.get("status") == "fixed" and f.get("commit") and not f.get("revert_masked_by"):
                 jobs.append(("revert", "%s-revert-%s" % (f["id"], f["commit"]), [f["property"]] + list(f.get("also", [])), f["commit"]))
     if filt:
         jobs = [j for j in jobs if any(x.lower() in j[1].lower() for x in filt)]
@@ -100,7 +100,8 @@ def main(argv):
     n_app = sum(1 for r in report if r.get("applies"))
     summary = {"mutants": len(report), "applicable": n_app, "caught": sum(1 for r in report if r.get("caught")), "missed": missed,
                "repo_head": sh("git -C %s rev-parse --short HEAD" % REPO).stdout.strip()}
-    with open(os.path.join(HERE, "selftest", "sensitivity_report.json"), "w") as f:
-        json.dump({"summary": summary, "results": report}, f, indent=1)
+    if not filt and want_seeded and want_reverts:
+        with open(os.path.join(HERE, "selftest", "sensitivity_report.json"), "w") as f:
+            json.dump({"summary": summary, "results": report}, f, indent=1)
     print("sensitivity: %(caught)d caught / %(applicable)d applicable / %(mutants)d mutants; missed %(missed)d" % summary)
     return 1 if missed else 0
